@@ -374,13 +374,25 @@ def run_shard(params):
         monitored(c09.check_hash, c09.gen_hash_case(rng), "hash")
     for i in range(params["nd"]):
         monitored(c09.check_dict, c09.gen_dict_case(rng), "dict")
-    percpu_workload(res, rng)
+    def guarded(fn, what):
+        # a call the monitor refused ends the workload; what it saw until
+        # then is the result
+        sysmon.Monitor.current = None
+        try:
+            fn(res, rng)
+        except sysmon.Refused:
+            mon = sysmon.Monitor.current
+            res.count("workloads_ended_by_a_refused_call")
+            if mon is not None:
+                mon.__exit__()
+                absorb(mon, res, what)
+    guarded(percpu_workload, "percpu")
     for _ in range(3):
-        percpu_instances_workload(res, rng)
-    misuse_workload(res, rng)
+        guarded(percpu_instances_workload, "percpu-instances")
+    guarded(misuse_workload, "misuse")
     for _ in range(3):
-        closed_program_workload(res, rng)
-        unsupported_use_workload(res, rng)
+        guarded(closed_program_workload, "closed-program")
+        guarded(unsupported_use_workload, "unsupported-use")
     res.count("workload_model_mismatches (C09's business)",
               len(scratch.violations))
     return res
